@@ -141,14 +141,17 @@ func (h *NFSProcedureHandler) handleSetattr(body io.Reader, reply *RPCReply, aut
 		return nfsErrorWithWcc(reply, NFSERR_IO), nil
 	}
 	attrs := &NFSAttrs{
-		Mode: node.attrs.Mode,
-		Uid:  node.attrs.Uid,
-		Gid:  node.attrs.Gid,
+		Mode:   node.attrs.Mode,
+		Size:   node.attrs.Size,
+		FileId: node.attrs.FileId,
+		Uid:    node.attrs.Uid,
+		Gid:    node.attrs.Gid,
 	}
 	node.mu.RUnlock()
 
 	if sattr.SetMode {
-		attrs.Mode = os.FileMode(sattr.Mode)
+		// Only the permission bits change: the object keeps its type
+		attrs.Mode = attrs.Mode&os.ModeType | os.FileMode(sattr.Mode)&os.ModePerm
 	}
 	if sattr.SetUID {
 		if authCtx.EffectiveUID == 0 {
